@@ -45,6 +45,7 @@ def W(kind, body, **info):
 
 
 def seq(*parts):
+    """flatten nested lists of lexemes (a lexeme is a list whose first element is a str); None is skipped"""
     out = []
     for p in parts:
         if p is None:
@@ -52,7 +53,8 @@ def seq(*parts):
         if p and isinstance(p[0], str):
             out.append(p)
         else:
-            out.extend(p)
+            for q in p:
+                out.extend(seq(q))
     return out
 
 
@@ -154,7 +156,7 @@ FUNCS = ['count', 'sum', 'max', 'coalesce', 'lower', 'f', 'my_fn', 'substr', 'nv
 # literals
 
 integer = st.integers(0, 99999).map(lambda i: L('num', str(i)))
-floatn = st.sampled_from(['1.5', '0.25', '10.0', '3.', '.5', '1e5', '2.5E-3', '0x1F', '7E2']).map(lambda s: L('num', s))
+floatn = st.sampled_from(['1.5', '0.25', '10.0', '3.', '0.5', '1e5', '2.5E-3', '0x1F', '7E2']).map(lambda s: L('num', s))
 strbody = frag_text('abc XYZ;,()-*/"`$#@!%_é1:?[]\n\t ', ['--', '/*', '*/', "''", 'select', 'from', 'END', ';\n', '\r\n'])
 string = strbody.map(lambda b: L('str', "'" + b + "'"))
 placeholder = st.sampled_from(['?', '%s', ':p1', '$1', '%(nm)s', ':nm']).map(lambda s: L('ph', s))
